@@ -167,6 +167,26 @@ fn probe_one(m: &HistModel, st: &St, i: usize, proto: u16, id: u16, other_id: u1
             out.push(issue(format!("{}/cache-changed-by-unknown-template-data/{}", pn, pos), format!("instance {}: probe {}", i, hex(&bytes))));
         }
     }
+    // another parser instance that DOES hold the id decodes the same data first, on this very thread; then this
+    // instance is offered it (state kept per thread or per process instead of per parser shows here, whatever thread
+    // the search happens to evaluate the state on)
+    for j in 0..m.ninst {
+        let other_holds = if proto == 9 { decodable(st.refc[j].v9.get(&id)) } else { decodable(st.refc[j].ipfix.get(&id)) };
+        if j == i || !other_holds || !m.is_allowed(j, proto) {
+            continue;
+        }
+        if let (Some(mut pj), Some(mut pi)) = (m.rebuild(j, &st.enc[j]), m.rebuild(i, &st.enc[i])) {
+            let d = mk(&[("D", id)]);
+            let rj = pj.parse_bytes(&d);
+            let ri = pi.parse_bytes(&d);
+            if has_records_for(&rj, proto, id) {
+                m.guard("data-for-absent-id-in-non-empty-cache");
+            }
+            if has_records_for(&ri, proto, id) {
+                out.push(issue(format!("{}/records-for-unknown-template/after-another-instance-decoded-it", pn), format!("instance {} reports decoded records for {} id {} right after instance {} (which holds the template) decoded the same data; probe {}", i, pn, id, j, hex(&d))));
+            }
+        }
+    }
     if allowed {
         // the same unknown-id data offered again (and again after data for a known id): still no records
         let mut p = m.rebuild(i, &st.enc[i]).unwrap();
